@@ -15,6 +15,7 @@ import (
 // verifBackupService is the file-based backup client with an uncompressed
 // FetchSnapshot (the real one compresses with LZ4, which is outside every claim).
 type verifBackupService struct {
+	afterUpload func()
 	*FileBackupClient
 	writes int
 }
@@ -23,6 +24,11 @@ func (b *verifBackupService) WriteTx(ctx context.Context, name string, r io.Read
 	hwm, err := b.FileBackupClient.WriteTx(ctx, name, r)
 	if err == nil {
 		b.writes++ // accepted uploads
+	}
+	if b.afterUpload != nil {
+		f := b.afterUpload
+		b.afterUpload = nil
+		f() // something happens on the primary after the data left and before the acknowledgement arrives
 	}
 	return hwm, err
 }
@@ -157,6 +163,8 @@ func VerifC14Sync() {
 		rt.Check(db.Pos() == svcPos, "the primary adopts the service's position")
 		verifC01CheckImage(w, svcImg, "the primary's database is byte-identical to the service's snapshot")
 		rt.Check(db.Pos().PostApplyChecksum == verifSpecChecksum(w.verifReadImage()), "C04: checksum after restore")
+		// the local log is the service's history now: nothing of the abandoned local history stays behind
+		verifCheckChain(db, "C14: after adopting the service's snapshot the local transaction log")
 	}
 	// a second sync on the idle primary changes nothing
 	writes := svc.writes
@@ -226,4 +234,36 @@ func VerifC14BatchLimit() {
 	after2, _ := svc.PosMap(ctx)
 	rt.Check(after2["db"] == local && db.Pos() == local, "repeated syncs bring the service to the primary's position without rolling the primary back")
 	rt.Reach("c14.batches")
+}
+
+// VerifC14UploadRacingCommit: the first upload of a database (a snapshot) is
+// acknowledged after a local transaction has committed in the meantime. What
+// the primary believes the service holds must be the position of the snapshot
+// it sent: the next sync then ships the missing transaction, and the primary is
+// never rolled back.
+func VerifC14UploadRacingCommit() {
+	ctx := context.Background()
+	w, chain := verifChain(1)
+	db := w.db
+	svc := &verifBackupService{FileBackupClient: NewFileBackupClient(filepath.Join(w.dir, "backup"))}
+	rt.Check(svc.Open() == nil, "backup client opens")
+	w.store.BackupClient = svc
+	sent := chain[1]
+	var local ltx.Pos
+	svc.afterUpload = func() {
+		pos, ok := VerifCommitPage1(db)
+		rt.Check(ok, "harness: local commit while the upload is being acknowledged")
+		local = pos
+	}
+	rt.Check(w.store.SyncBackup(ctx) == nil, "first sync succeeds")
+	after1, _ := svc.PosMap(ctx)
+	rt.Check(after1["db"] == sent, "the service holds the snapshot of the position it was sent")
+	rt.Check(db.Pos() == local && local.TXID == sent.TXID+1, "the local commit stands")
+	rt.Check(db.HWM() <= after1["db"].TXID, "published high-water mark never exceeds what the service acknowledged")
+	rt.Check(w.store.SyncBackup(ctx) == nil, "second sync succeeds")
+	after2, _ := svc.PosMap(ctx)
+	rt.Check(db.Pos() == local, "the primary is not rolled back to the service's older position")
+	rt.Check(after2["db"] == local, "the next sync ships the transaction committed during the first upload")
+	rt.Check(len(w.exits) == 0, "no fatal exit")
+	rt.Reach("c14.upload.racing.commit")
 }
